@@ -483,6 +483,8 @@ def c20_g4(repo, res, rule="G4"):
     for modname, qual, setter, params, check_return in items:
         node = find_ast(modname, qual, setter)
         have = [a.arg for a in node.args.posonlyargs + node.args.args]
+        if qual == "get_style" and len(have) >= 2 and have[1] != "default_settings":
+            params = {(have[1] if k == "default_settings" else k): v for k, v in params.items()}      # the defaults argument under another name
         if have and have[0] == "self" and "self" not in params:
             params = dict(params, self=O({"A:self"}))          # a static helper turned into a method
         out, dom, it = run_node(modname, node, params, name=qual)
